@@ -159,6 +159,11 @@ BOUNDED = [
     (["delim", ["struct", [["varr", "byte", 3]]], 32], {"f0": [65]}, True, "4243444546"),
     (["delim", ["struct", [["farr", "byte", 3], "u8"]], 64], {"f0": [65, 66, 67], "f1": 9}, True, "5152"),
     (["struct", [["farr", ["delim", ["struct", [["varr", "u8", 3]]], 32], 2], "u8"]], {"f0": [{"f0": [1]}, {"f0": [2, 3]}], "f1": 0x77}, False, ""),
+    # delimited in delimited with TIGHT extents (payload length == extent) and data after the nested object
+    (["struct", [["delim", ["struct", [["delim", ["struct", ["u8"]], 8], "u8"]], 48], "u8", "u8"]],
+     {"f0": {"f0": {"f0": 7}, "f1": 9}, "f1": 0x55, "f2": 0x66}, False, ""),
+    (["delim", ["struct", [["delim", ["struct", ["u16"]], 16], ["delim", ["struct", ["u8"]], 8]]], 88],
+     {"f0": {"f0": 0x1234}, "f1": {"f0": 0x56}}, True, "a1a2a3a4a5a6"),
 ]
 
 # twins: composites that compare EQUAL (same name, version and bit length set) but differ in structure
